@@ -148,8 +148,12 @@ def _pin(pin: Dict):
 
         class _Secrets:
             @staticmethod
-            def randbits(k):
+            def randbits(k):       # the code before the F-9 repair: identifier = secrets.randbits(16)
                 return ident
+
+            @staticmethod
+            def randbelow(k):      # the repaired code: identifier = 10000 + secrets.randbelow(55536)
+                return min(max(ident - 10000, 0), k - 1)
 
         icmp_mod.secrets = _Secrets
 
